@@ -526,6 +526,8 @@ func (c *Ctx) ruleR16b(rule string) {
 		return
 	}
 	var lookup, lenCheck *ssa.Function
+	var lookupFields func(int) ssa.Value // for a method value: what the constructor stored into the object's fields
+	lookupArgs := func(i int64) []bval { return []bval{{known: true, i: i}} }
 	for _, b := range fn.Blocks {
 		for _, in := range b.Instrs {
 			if mc, ok := in.(*ssa.MakeClosure); ok {
@@ -535,6 +537,10 @@ func (c *Ctx) ruleR16b(rule string) {
 						lenCheck = f
 					} else {
 						lookup = f
+						if m, fields := c.boundMethod(mc); m != nil {
+							lookup, lookupFields = m, fields
+							lookupArgs = func(i int64) []bval { return []bval{{}, {known: true, i: i}} }
+						}
 					}
 				}
 			}
@@ -548,6 +554,25 @@ func (c *Ctx) ruleR16b(rule string) {
 	okLookup := true
 	valueP, sepP := fn.Params[0], fn.Params[1]
 	fvOf := func(v ssa.Value) *ssa.Parameter {
+		if lookupFields != nil {
+			// a field of the method's receiver
+			idx := -1
+			switch x := v.(type) {
+			case *ssa.Field:
+				if x.X == ssa.Value(lookup.Params[0]) {
+					idx = x.Field
+				}
+			case *ssa.UnOp:
+				if fa, ok := x.X.(*ssa.FieldAddr); ok && x.Op == token.MUL && (fa.X == ssa.Value(lookup.Params[0]) || isRecvSpill(lookup, fa.X)) {
+					idx = fa.Field
+				}
+			}
+			if idx >= 0 {
+				p, _ := lookupFields(idx).(*ssa.Parameter)
+				return p
+			}
+			return nil
+		}
 		u, ok := v.(*ssa.UnOp)
 		if !ok || u.Op != token.MUL {
 			return nil
@@ -579,7 +604,7 @@ func (c *Ctx) ruleR16b(rule string) {
 	}
 	// lookup: folded for i = 0..7 — the value parser at even indexes, the separator at odd ones
 	for i := int64(0); i < 8 && okLookup; i++ {
-		ret, _, took := foldToReturn(lookup, []bval{{known: true, i: i}}, nil, 0)
+		ret, _, took := foldToReturn(lookup, lookupArgs(i), nil, 0)
 		if ret == nil || len(ret.Results) != 1 {
 			c.R.Undecided(rule, c.name(lookup)+" shape", c.name(lookup), c.P.Pos(lookup.Pos()), "the SepBy lookup is not a pure function of the index")
 			return
@@ -612,7 +637,10 @@ func (c *Ctx) ruleR16b(rule string) {
 					}
 				}
 			}
+			fl := allow
+			foldBoolField = &fl
 			got := foldFuncEnv(lenCheck, []bval{{known: true, i: n}}, capt, 0)
+			foldBoolField = nil
 			if !got.known || !got.isB {
 				c.R.Undecided(rule, c.name(lenCheck)+" atoms", c.name(lenCheck), c.P.Pos(lenCheck.Pos()), "the length predicate is not a pure function of the length and the allow-empty flag")
 				return
@@ -683,4 +711,46 @@ func evalBool(v ssa.Value, atom func(ssa.Value) (bool, bool), depth int) (bool, 
 		return false, false
 	}
 	return atom(v)
+}
+
+// boundMethod: the closure is a method value; returns the method behind the bound wrapper and what the creating
+// function stored into each field of the receiver object.
+func (c *Ctx) boundMethod(mc *ssa.MakeClosure) (*ssa.Function, func(int) ssa.Value) {
+	g := mc.Fn.(*ssa.Function)
+	if g.Synthetic == "" || len(mc.Bindings) != 1 {
+		return nil, nil
+	}
+	var m *ssa.Function
+	for _, call := range ssax.Calls(g) {
+		if sc := call.Common().StaticCallee(); sc != nil && c.P.InLib(sc) && sc.Signature.Recv() != nil {
+			m = sc
+		}
+	}
+	if m == nil {
+		return nil, nil
+	}
+	var obj ssa.Value = mc.Bindings[0]
+	if u, ok := obj.(*ssa.UnOp); ok && u.Op == token.MUL {
+		obj = u.X
+	}
+	al, ok := obj.(*ssa.Alloc)
+	if !ok {
+		return m, func(int) ssa.Value { return nil }
+	}
+	return m, func(idx int) ssa.Value {
+		if al.Referrers() == nil {
+			return nil
+		}
+		var v ssa.Value
+		for _, r := range *al.Referrers() {
+			if fa, ok := r.(*ssa.FieldAddr); ok && fa.Field == idx && fa.Referrers() != nil {
+				for _, rr := range *fa.Referrers() {
+					if st, ok := rr.(*ssa.Store); ok && st.Addr == fa {
+						v = st.Val
+					}
+				}
+			}
+		}
+		return v
+	}
 }
